@@ -5,6 +5,22 @@ ROOT = os.path.dirname(os.path.dirname(os.path.abspath(__file__)))
 ids = [json.loads(l)["id"] for l in open(os.path.join(ROOT, "properties.jsonl"))]
 
 CLAIMED = {
+ "C20": dict(
+   text="Lean 4 theorems (Props/C20.lean) over the regenerated error layer (Generated/Errors.lean: every OAuth2Error subclass with code / status / class-level description, every "
+        "literal description passed when the library raises one, every site where a description is computed, the invalid_error_characters ranges, the default JSON headers — "
+        "re-extracted from the source by AST and import on every run): ranges_are_rfc6749, static_ and class_descriptions_in_charset, error_codes_registered, statuses_fit, "
+        "dynamic_description_sites_reviewed (the computed-description sites are exactly a reviewed list), json_responses_not_cacheable; and over Model/ErrorResponse.lean "
+        "(OAuth2Error.__init__ → __call__ → handle_error_response): response_wellformed (registered code, fitting status, description within the RFC 6749 set), "
+        "no_crash_partial, forbidden_character_crashes (the complement: how an embedded request value became a ValueError). Correspondence: every error class × description "
+        "pool against the real constructors. Hostile-input oracle: 11 000 (quick) requests over all OAuth 2 / OIDC / OAuth 1 endpoints, registration / configuration, both "
+        "resource protectors (core and Flask), RFC 7523 / RFC 9068 JWT consumers, and JWS / JWT / JWE parsing: any escaping exception, unregistered code, misfit status, "
+        "out-of-set description or token response without no-store is a concrete failing input.",
+   note="PARTIAL as labelled: 'the endpoint body raises nothing but OAuth2Error' is searched for by the oracle, not proved — Python code is not total by construction. Readings: the "
+        "RFC 6749 description character set is applied to OAuth 2 responses (OAuth 1 problem reports are form-encoded; RFC 5849 defines neither registry nor set); for JOSE calls "
+        "ValueError('Invalid JSON Web Key Set') for an unknown kid and the ValueError / InvalidUnwrap / InvalidTag of JWE decryption are the documented outcomes (docstring, tests/jose). "
+        "Not driven: flask_oauth1, Django integrations.",
+   technique="Lean 4 proof over an AST-regenerated error table + error-path model (correspondence on constructors) + exhaustive-pool hostile-input oracle",
+   design="§4 C20"),
  "C18": dict(
    text="Lean 4 theorems. Metadata (Props/C18.lean over Model/Metadata.lean + Model/Url.lean, validators run in the REGISTRY_KEYS order regenerated from both classes on every "
         "run): as_/op_metadata_valid_iff_rules_partial — validate() accepts a document IFF every member satisfies its rule (required members present, endpoints https, issuer "
